@@ -104,7 +104,9 @@ func selfExe() string {
 	return p
 }
 
-// runJobs spreads jobs over worker processes (one package per worker) and collects the results.
+// runJobs puts the jobs into per-package queues (one file per job) and starts worker processes
+// that claim jobs from the queue of their package until it is empty; results are collected from
+// the output directory. Heavier jobs (by a rough weight) are queued first.
 func runJobs(jobs []Job, maxWorkers int, scratch string) ([]JobResult, error) {
 	byPkg := map[string][]Job{}
 	var pkgs []string
@@ -115,14 +117,27 @@ func runJobs(jobs []Job, maxWorkers int, scratch string) ([]JobResult, error) {
 		byPkg[j.H.Pkg] = append(byPkg[j.H.Pkg], j)
 	}
 	sort.Strings(pkgs)
-	// workers per package proportional to its job count
 	total := len(jobs)
 	if maxWorkers > total {
 		maxWorkers = total
 	}
-	var batches [][]Job
-	for _, p := range pkgs {
+	outdir := filepath.Join(scratch, "out")
+	os.MkdirAll(outdir, 0755)
+	type wk struct {
+		qdir string
+		pkg  string
+	}
+	var workers []wk
+	for pi, p := range pkgs {
 		js := byPkg[p]
+		qdir := filepath.Join(scratch, fmt.Sprintf("q%d", pi))
+		os.MkdirAll(qdir, 0755)
+		// slow-solver harnesses first
+		sort.SliceStable(js, func(a, b int) bool { return jobWeight(js[a]) > jobWeight(js[b]) })
+		for ji, j := range js {
+			data, _ := json.Marshal([]Job{j})
+			os.WriteFile(filepath.Join(qdir, fmt.Sprintf("job%05d", ji)), data, 0644)
+		}
 		w := len(js) * maxWorkers / total
 		if w < 1 {
 			w = 1
@@ -130,38 +145,28 @@ func runJobs(jobs []Job, maxWorkers int, scratch string) ([]JobResult, error) {
 		if w > len(js) {
 			w = len(js)
 		}
-		parts := make([][]Job, w)
-		for i, j := range js {
-			parts[i%w] = append(parts[i%w], j)
+		for k := 0; k < w; k++ {
+			workers = append(workers, wk{qdir, p})
 		}
-		batches = append(batches, parts...)
 	}
-	outdir := filepath.Join(scratch, "out")
-	os.MkdirAll(outdir, 0755)
-	sem := make(chan struct{}, maxWorkers)
 	var wg sync.WaitGroup
 	var mu sync.Mutex
 	var firstErr error
-	for bi, b := range batches {
+	for wi, w := range workers {
 		wg.Add(1)
-		sem <- struct{}{}
-		go func(bi int, b []Job) {
+		go func(wi int, w wk) {
 			defer wg.Done()
-			defer func() { <-sem }()
-			jf := filepath.Join(scratch, fmt.Sprintf("batch%d", bi))
-			data, _ := json.Marshal(b)
-			os.WriteFile(jf, data, 0644)
-			cmd := exec.Command(selfExe(), "worker", jf, outdir)
+			cmd := exec.Command(selfExe(), "worker", "--queue", w.qdir, outdir)
 			cmd.Stderr = os.Stderr
 			cmd.Stdout = os.Stderr
 			if err := cmd.Run(); err != nil {
 				mu.Lock()
 				if firstErr == nil {
-					firstErr = fmt.Errorf("worker for batch %d (%s): %v", bi, b[0].H.ID, err)
+					firstErr = fmt.Errorf("worker %d (%s): %v", wi, w.pkg, err)
 				}
 				mu.Unlock()
 			}
-		}(bi, b)
+		}(wi, w)
 	}
 	wg.Wait()
 	if firstErr != nil {
@@ -186,6 +191,14 @@ func runJobs(jobs []Job, maxWorkers int, scratch string) ([]JobResult, error) {
 		return results, fmt.Errorf("expected %d job results, got %d (a worker crashed)", len(jobs), len(results))
 	}
 	return results, nil
+}
+
+func jobWeight(j Job) int {
+	w := 1
+	if j.H.opt(j.Tier, "fpconv", "") != "" || j.H.opt(j.Tier, "solver", "") != "" {
+		w += 100
+	}
+	return w
 }
 
 var forcePreset map[string]int
